@@ -88,11 +88,25 @@ From NP Require Import ShortCircuitProofs.
 
 (* every dereference inside the expression that can panic -- for some nil-ness of the variables and some outcome of the
    opaque operands -- is reported, for every expression all of whose LEFT operands are pure trees of the operator they
-   stand under (any depth, any right nesting) *)
+   stand under (any depth, any right nesting), whatever its conditions are as long as the conclusions attached to them are
+   right (conds_ok) ... *)
 Theorem C19_short_circuit_attribution : forall e nilv orc l,
-  left_pure e = true -> eval nilv orc e = Panic l -> In l (reported e).
+  left_pure e = true -> conds_ok e -> eval nilv orc e = Panic l -> In l (reported e).
 Proof. exact short_circuit_sound. Qed.
 Print Assumptions C19_short_circuit_attribution.
+
+(* ... and they are right for every condition AddNilCheck recognises through its recursion: comparisons with nil in either
+   order, negations, comparisons with boolean constants in either order, nested to any depth -- the conclusions are those
+   M5's interpreter of the GENERATED checker list computes (cond_of), so M5 and M14 compose *)
+From NP Require Import ShortCircuitCmp.
+Theorem C19_nested_conditions_draw_right_conclusions : forall c, cond1_ok (cond_of c).
+Proof. exact cond_of_ok. Qed.
+Print Assumptions C19_nested_conditions_draw_right_conclusions.
+
+Theorem C19_short_circuit_attribution_nested : forall e nilv orc l,
+  left_pure e = true -> nested_conds e -> eval nilv orc e = Panic l -> In l (reported e).
+Proof. exact short_circuit_sound_nested. Qed.
+Print Assumptions C19_short_circuit_attribution_nested.
 
 (* outside that class the statement is false of the code: finding F104, with the failing inputs *)
 Theorem C19_short_circuit_refuted_outside_class :
